@@ -951,6 +951,11 @@ class Evaluator:
                 if meth == "rotate":
                     recv.rotate(*args)
                     return None
+                if meth == "reverse":
+                    recv.reverse()
+                    return None
+                if meth in ("index", "count"):
+                    return getattr(recv, meth)(*args)
                 if meth == "append":
                     recv.append(args[0])
                     return None
